@@ -4,6 +4,8 @@ import (
 	"fmt"
 	"go/constant"
 	"go/types"
+	"regexp"
+	"strconv"
 	"strings"
 
 	"golang.org/x/tools/go/ssa"
@@ -187,12 +189,67 @@ func runC11(r *Run, p *Prog) {
 		}
 	}
 	flagTerm := func(name string) string { return fmt.Sprintf("(%s & const:%d)", flagsP, fc[name]) }
+	// what a fact about `flags & M` (M a constant mask) says about one flag bit: `flags&M == C` fixes every bit of M;
+	// `flags&M != 0` says "set" only for a single-bit M. So `flags&More != 0`, `flags&More == More` and
+	// `flags&(More|Oneway) == More|Oneway` are all understood.
+	reMask := regexp.MustCompile(`^\(` + regexp.QuoteMeta(flagsP) + ` & const:(\d+)\)$`)
 	flagFact := func(fs []Fact, name string, set bool) bool {
-		ft := flagTerm(name)
+		bit := fc[name]
 		for _, f := range fs {
-			if (f.A == "const:0" && f.B == ft) || (f.B == "const:0" && f.A == ft) {
-				if set && f.Op == "NE" || !set && f.Op == "EQ" {
-					return true
+			for _, pr := range [][2]string{{f.A, f.B}, {f.B, f.A}} {
+				m := reMask.FindStringSubmatch(strip(pr[0]))
+				if m == nil || !strings.HasPrefix(pr[1], "const:") {
+					continue
+				}
+				mask, err1 := strconv.ParseInt(m[1], 10, 64)
+				c, err2 := strconv.ParseInt(strings.TrimPrefix(pr[1], "const:"), 10, 64)
+				if err1 != nil || err2 != nil || mask&bit == 0 {
+					continue
+				}
+				switch f.Op {
+				case "EQ":
+					if c&^mask != 0 {
+						continue
+					}
+					if set == (c&bit != 0) {
+						return true
+					}
+				case "NE":
+					// flags&M != C: informative only for the single-bit mask
+					if mask == bit && (c == 0 && set || c == bit && !set) {
+						return true
+					}
+				}
+			}
+		}
+		return false
+	}
+	_ = flagTerm
+	// bothSetContradicted: the facts cannot hold when every bit of `bits` is set: `flags&M != M` (or `== C` with a bit
+	// of `bits` missing in C) for a mask M inside `bits` - the negated side of a combined test
+	// `flags&(More|Oneway) == More|Oneway`.
+	bothSetContradicted := func(fs []Fact, bits int64) bool {
+		for _, f := range fs {
+			for _, pr := range [][2]string{{f.A, f.B}, {f.B, f.A}} {
+				m := reMask.FindStringSubmatch(strip(pr[0]))
+				if m == nil || !strings.HasPrefix(pr[1], "const:") {
+					continue
+				}
+				mask, err1 := strconv.ParseInt(m[1], 10, 64)
+				c, err2 := strconv.ParseInt(strings.TrimPrefix(pr[1], "const:"), 10, 64)
+				if err1 != nil || err2 != nil {
+					continue
+				}
+				known := mask & bits // bits of the masked value that are 1 under the assumption
+				switch f.Op {
+				case "NE":
+					if mask&^bits == 0 && c == mask {
+						return true // the masked value is exactly `mask` under the assumption
+					}
+				case "EQ":
+					if known&^c != 0 {
+						return true // a bit assumed set is required to be clear
+					}
 				}
 			}
 		}
@@ -217,7 +274,7 @@ func runC11(r *Run, p *Prog) {
 				return in == ssa.Instruction(cm.Marshal) || in == ssa.Instruction(cm.Write) || isNilErrorReturn(in)
 			}, nil, func(x, y *ssa.BasicBlock) bool {
 				fs := T.edgeFactsOn(x, y)
-				return flagFact(fs, a, false) || flagFact(fs, b, false)
+				return flagFact(fs, a, false) || flagFact(fs, b, false) || bothSetContradicted(fs, fc[a]|fc[b])
 			})
 			r.Ob("N1", shortName(send), a+" with "+b+" is refused before anything is marshalled or written", send.Pos(), !reach,
 				"with both "+a+" and "+b+" set, the marshal, the write or a success return is reachable: the forbidden combination goes out on the wire", witnessPos(p, w)...)
